@@ -10,7 +10,6 @@ def claim(id, technique, text, note, ref):
     CLAIMED[id] = (technique, text, note, ref)
 
 NA = {
- "C08": "Whether a DKIM signature verifies after spooling and SMTP transfer is a function of the exact bytes produced by library serialisers, canonicalisers and a crypto primitive over arbitrary input; no clause of it is visible in the shape of maddy's code without freezing a source fragment (DESIGN.md §4). Static analysis does not apply.",
 }
 PENDING = {}
 
